@@ -212,6 +212,116 @@ def ob_set_value(c0: float, d1: float, d2: float, f0: float, e1: float, e2: floa
     return h.done(cell=(mode == 0), line=(mode != 0), rejected=False)
 
 
+def ob_coord_on_range(start: float, step: float) -> bool:
+    """
+    pre: -1000 <= start <= 1000 and 0.0001 <= step <= 1000
+    post: _
+    """
+    # replay target of the IEEE search: on an axis built by create_range_dim, looking up a coordinate value
+    # returns that coordinate's own index, and set_value_at_pos writes that cell
+    N = h.P("N")
+    stop = start + N * step
+    v = D.create_range_dim("time", start, stop, step=step)
+    xs = _labels(v)
+    arr = XR.DataArray(NP.zeros(len(xs)), dims=("time",), coords={"time": v})
+    for i, x in enumerate(xs):
+        got = D.get_coord_index(arr, "time", x)
+        if got != i:
+            return h.fail("looking up a coordinate value does not return that coordinate's index")
+    return h.done(any=True)
+
+
+def kx_coord_index(params, timeout):
+    """IEEE-754 search: the real create_range_dim + get_coord_index are executed over z3 Float64 terms (path
+    by path, infeasible branches pruned by z3); for the i-th coordinate of an N-step axis z3 is asked for
+    doubles (start, step) for which the lookup of that coordinate value returns another index."""
+    import types
+
+    import z3
+
+    from models import npl, xrl
+    from vf import kx
+
+    N, i = params["N"], params["i"]
+    start, step = kx.var("start", 0.5), kx.var("step", 0.25)
+    base = [kx.finite_between(start, -1000.0, 1000.0), kx.finite_between(step, 0.0001, 1000.0)]
+    import math
+
+    def arange(start=None, stop=None, step=1, dtype=None):
+        a, b, s_ = start, stop, step
+        if all(isinstance(x, int) and not isinstance(x, bool) for x in (a, b, s_)):
+            r = list(range(a, b, s_))
+            return npl.ndarray(r, (len(r),), None)
+        k = max(0, math.ceil((kx.shadow(b) - kx.shadow(a)) / kx.shadow(s_)))
+        delta = (a + s_) - a  # numpy: element j = start + j*delta
+        return npl.ndarray([a + j * delta for j in range(k)], (k,), None)
+
+    def kx_int(x=0, *a):
+        if isinstance(x, kx.ZF):
+            return x.__int__()
+        if isinstance(x, kx.ZI):
+            return x
+        return int(x, *a)
+
+    fake_np = types.SimpleNamespace(arange=arange, float64=npl.float64, ndarray=npl.ndarray, zeros=npl.zeros,
+                                    floor=lambda x: kx_int(x) if isinstance(x, kx.ZF) else math.floor(x))
+
+    def run():
+        v = D.create_range_dim("time", start, start + N * step, step=step)
+        labels = v.data.tolist()
+        arr = xrl.DataArray(npl.zeros(len(labels)), dims=("time",), coords={"time": v})
+        if i >= len(labels):
+            return ("short", len(labels))
+        return ("idx", D.get_coord_index(arr, "time", labels[i]))
+
+    saved = (D.np, D.xr, D.__dict__.get("int"))
+    D.np, D.xr = fake_np, xrl.xarray
+    D.int = kx_int
+    try:
+        paths = kx.explore(run, max_paths=200, base=base, prune_timeout_ms=3000)
+    finally:
+        D.np, D.xr = saved[0], saved[1]
+        if saved[2] is None:
+            del D.int
+        else:
+            D.int = saved[2]
+    queries = 0
+    t_left = timeout
+    unknown = False
+    for pc, res in paths:
+        if isinstance(res, Exception):
+            bad = z3.BoolVal(True)  # an in-range coordinate raised
+        elif res[0] == "short":
+            continue
+        else:
+            idx = res[1]
+            if isinstance(idx, kx.ZI):
+                bad = idx.e != i
+            else:
+                bad = z3.BoolVal(int(idx) != i)
+        if z3.is_false(z3.simplify(bad)):
+            continue
+        r = kx.solve(base + pc + [bad], max(5.0, t_left / 4), {"start": start, "step": step})
+        queries += 1
+        t_left -= r["solve_s"]
+        if r["status"] == "sat":
+            m = r["model"]
+            return {"status": "refuted", "replay_fn": "ob_coord_on_range", "args": [[m["start"], m["step"]], {}],
+                    "queries": queries, "paths": len(paths), "solve_s": round(timeout - t_left, 1),
+                    "message": "z3 model: lookup of coordinate %d of an %d-step axis returns another index for "
+                    "start=%r step=%r" % (i, N, m["start"], m["step"]),
+                    "clause": "looking up a coordinate value does not return that coordinate's index"}
+        if r["status"] != "unsat":
+            unknown = True
+    out = {"queries": queries, "paths": len(paths), "solve_s": round(timeout - t_left, 1)}
+    if unknown:
+        out.update(status="searched", message="no IEEE counterexample found within the budget (z3: unknown on "
+                   "some path)")
+    else:
+        out.update(status="confirmed")
+    return out
+
+
 def plan():
     q = ("quick", "thorough")
     obs = []
@@ -227,6 +337,9 @@ def plan():
     for n in (1, 2, 3, 4):
         tw = {1: ("edge", "outside"), 2: ("inside", "edge", "outside"), 3: ("inside", "outside"), 4: ("outside",)}[n]
         obs.append(Ob("coord-index-n%d" % n, ob_coord_index, "ieee", 900, dict(n=n), q, twins=tw, twin_timeout=600))
+    for (N, i) in ((3, 1), (3, 2), (5, 4), (8, 5), (8, 7)):
+        obs.append(Ob("ieee-lookup-N%d-i%d" % (N, i), kx_coord_index, "kx", 1500, dict(N=N, i=i),
+                      ("thorough",), kind="py"))
     for (nt, nf) in ((1, 1), (2, 3), (3, 2), (3, 3)):
         for order in ("tf", "ft"):
             quick = (nt, nf) in ((2, 3),) or (nt, nf, order) == (3, 2, "ft")
@@ -252,8 +365,10 @@ INFO = dict(
         "CrossHair 0.0.110 + z3 (Real / Float64)",
     ],
     outside=[
-        "IEEE-754 rounding inside np.arange (length and elements): decided in exact arithmetic only; a direct QF_FP "
-        "search for 'whole number of steps but another count' is not part of this check",
+        "IEEE-754 rounding inside np.arange (length and elements): decided in exact arithmetic only",
+        "the IEEE lookup search (ieee-lookup-*) is a refutation search over the real create_range_dim + "
+        "get_coord_index run on z3 Float64 terms: 'confirmed' there means every explored path is unsat, 'searched' "
+        "means z3 returned unknown on some path (reported, not claimed)",
         "N = 0 (create_range_dim(x, x, s) raises IndexError on the empty range)",
     ],
 )
